@@ -89,6 +89,30 @@ func c14Record(name string, residues string, circular bool, shift int) seqio.Gen
 	}
 }
 
+// c14BlockFasta: a FASTA file of exactly size bytes whose last four residues are tail.
+func c14BlockFasta(size int, tail string) []byte {
+	head := ">blk\n"
+	var b []byte
+	b = append(b, head...)
+	for len(b) < size-1 {
+		if (len(b)-len(head))%71 == 70 {
+			b = append(b, '\n')
+		} else {
+			b = append(b, "acgt"[len(b)%4])
+		}
+	}
+	b = append(b, '\n')
+	// overwrite the last four residue bytes (skipping line breaks)
+	k := len(b) - 2
+	for i := len(tail) - 1; i >= 0; k-- {
+		if b[k] != '\n' {
+			b[k] = tail[i]
+			i--
+		}
+	}
+	return b
+}
+
 func c14Setup() {
 	c14Once.Do(func() {
 		a := c14Record("RECA", "acgtacggtacctagcatgcaagt", true, 0)
@@ -125,6 +149,9 @@ func c14Setup() {
 			"file:g1": []byte(">g1\nttt\n"), "file:g2": []byte(">g2\nccc\n"),
 			"file:h1": []byte(b.String()), "file:h2": []byte(c14Record("HOST2", "ggggccccaaaatttt", false, 0).String()),
 			"file:q1": []byte(">q\nacg\n"), "file:q2": []byte(">q\ncat\n"),
+			// secondary inputs whose size is an exact multiple of 4096 bytes and that differ only in their last bytes
+			"file:gB1": c14BlockFasta(8192, "acgt"), "file:gB2": c14BlockFasta(8192, "ttga"),
+			"file:gC1": c14BlockFasta(4096, "acgt"), "file:gC2": c14BlockFasta(4096, "ttga"),
 			"file:t1": []byte("     gene            5..9\n                     /gene=\"added1\"\n"),
 			"file:t2": []byte("     CDS             6..12\n                     /product=\"added2\"\n"),
 		}
@@ -284,6 +311,11 @@ func c14Alphabet(thorough bool) []c14Inv {
 			c14Inv{Args: []string{"infix", "3", "host.gb"}, Stdin: "A", Files: map[string]string{"host.gb": "h" + v}},
 			c14Inv{Args: []string{"search", "query.fa"}, Stdin: "A", Files: map[string]string{"query.fa": "q" + v}},
 			c14Inv{Args: []string{"annotate", "table.txt"}, Stdin: "A", Files: map[string]string{"table.txt": "t" + v}})
+	}
+	for _, v := range []string{"B1", "B2", "C1", "C2"} {
+		out = append(out,
+			c14Inv{Args: []string{"insert", "3", "guest.fa"}, Stdin: "A", Files: map[string]string{"guest.fa": "g" + v}},
+			c14Inv{Args: []string{"search", "query.fa"}, Stdin: "BIG", Files: map[string]string{"query.fa": "g" + v}})
 	}
 	// locators that are valid for the first record of the stream and out of range for the second:
 	// the command fails (or panics) after partial output; the repeated run must fail the same way
